@@ -34,6 +34,7 @@ type Decision struct {
 	N       int
 	Frozen  bool // part of a donated prefix: never flipped by this worker
 	Unchecked bool // flipped alternative whose feasibility has not been checked yet
+	M       Model  // a model of the path condition just before this decision (immutable snapshot)
 }
 
 type InputRec struct {
@@ -92,6 +93,8 @@ type Exec struct {
 	model      Model
 	failModel  Model
 	arithInt   bool
+	rcache     map[*Term]*rendered
+	startModel Model
 	intSolved  int
 	modelStale bool
 	gaddr      map[*ssa.Global]uint64
@@ -133,8 +136,12 @@ func (ex *Exec) resetPath() {
 	ex.trace = nil
 	ex.pathSym = false
 	ex.writes = 0
-	ex.model = Model{}
+	ex.model = ex.startModel
+	if ex.model == nil {
+		ex.model = Model{}
+	}
 	ex.modelStale = false
+	ex.rcache = map[*Term]*rendered{}
 	ex.gaddr = nil
 	ex.curFrame = nil
 	ex.unknowns = nil
@@ -477,7 +484,7 @@ func (ex *Exec) feasible(c *Term) bool {
 	if c.IsConst() {
 		return c.Bool()
 	}
-	v := ex.solver.CheckWith(c)
+	v, _ := ex.solve(c, nil)
 	return v != Unsat
 }
 
@@ -525,7 +532,6 @@ func (ex *Exec) extend(c *Term, knownByModel bool) bool {
 		}
 	}
 	ex.pc = append(ex.pc, c)
-	ex.solver.Assert(c)
 	return true
 }
 
@@ -557,7 +563,7 @@ func (ex *Exec) branch(c *Term) bool {
 		return d.Taken
 	}
 	taken := ex.evalModel(c).Bool()
-	d := &Decision{Kind: 'b', Taken: taken, AltOpen: true}
+	d := &Decision{Kind: 'b', Taken: taken, AltOpen: true, M: ex.model}
 	ex.trail = append(ex.trail, d)
 	ex.pos++
 	if taken {
@@ -571,7 +577,6 @@ func (ex *Exec) branch(c *Term) bool {
 // extendReplay re-asserts a side already known feasible; the model is refreshed lazily.
 func (ex *Exec) extendReplay(side *Term) {
 	ex.pc = append(ex.pc, side)
-	ex.solver.Assert(side)
 	if ex.model != nil && !ex.evalModel(side).Bool() {
 		ex.model = nil
 		ex.modelStale = true
@@ -625,7 +630,7 @@ func (ex *Exec) choice(n int) int {
 		}
 		return d.Choice
 	}
-	d := &Decision{Kind: 'c', Choice: 0, N: n, AltOpen: true}
+	d := &Decision{Kind: 'c', Choice: 0, N: n, AltOpen: true, M: ex.model}
 	ex.trail = append(ex.trail, d)
 	ex.pos++
 	return 0
@@ -665,7 +670,7 @@ func (ex *Exec) pick(t *Term) uint64 {
 		ex.ensureModel()
 		val := ex.evalModel(t).C
 		c := Eq(t, &Term{Op: "const", S: t.S, C: val})
-		d := &Decision{Kind: 'v', Taken: true, AltOpen: true, Val: val}
+		d := &Decision{Kind: 'v', Taken: true, AltOpen: true, Val: val, M: ex.model}
 		ex.trail = append(ex.trail, d)
 		ex.pos++
 		ex.extend(c, true)
@@ -740,7 +745,6 @@ func (ex *Exec) vassert(id string, c *Term) {
 	switch v {
 	case Sat:
 		ex.pc = append(ex.pc, Not(c))
-		ex.solver.Assert(Not(c))
 		ex.failModel = m
 		ex.fail(id, "assertion can be false")
 	case Unsat:
@@ -748,7 +752,6 @@ func (ex *Exec) vassert(id string, c *Term) {
 			ex.W.cross(ex, Not(c), id)
 		}
 		ex.pc = append(ex.pc, c)
-		ex.solver.Assert(c)
 	default:
 		ex.unknowns = append(ex.unknowns, ex.curHarness+"/"+id+": solver unknown "+ex.solver.lastErr)
 		panic(pathEnd{"unknown", id})
@@ -1341,7 +1344,7 @@ func (ex *Exec) checkAlloc(n *Term, elem types.Type) {
 		if !n.IsConst() {
 			// keep symbolic sizes sane even without an explicit bound
 			if v, m := ex.solve(BVCmp("bvslt", i64(1<<26), n), ex.inputVars()); v != Unsat {
-				ex.solver.Assert(BVCmp("bvslt", i64(1<<26), n))
+				ex.pc = append(ex.pc, BVCmp("bvslt", i64(1<<26), n))
 				ex.failModel = m
 				ex.fail("alloc-unbounded", "allocation size is input-controlled and can exceed 2^26 elements")
 			}
@@ -1358,7 +1361,7 @@ func (ex *Exec) checkAlloc(n *Term, elem types.Type) {
 	ex.asserts++
 	ex.assertSym++
 	if v, m := ex.solve(over, ex.inputVars()); v != Unsat {
-		ex.solver.Assert(over)
+		ex.pc = append(ex.pc, over)
 		ex.failModel = m
 		ex.fail("alloc-bound", fmt.Sprintf("allocation size is input-controlled and can exceed %d elements", ex.allocBound))
 	}
@@ -1510,31 +1513,123 @@ func sortedKeys(m map[string]bool) []string {
 
 var _ = os.Exit
 
-// solve decides PC ∧ extra. In integer-arithmetic mode (declared by the harness with vArith) the whole path
-// condition is rendered as wrapped integer arithmetic first; anything that rendering cannot express, or an
-// unknown answer, falls back to the bit-vector path.
+// slice returns the conjuncts of the path condition that share variables (transitively) with extra.
+// The path condition is satisfiable by invariant (ex.model satisfies it), so conjuncts over other variables
+// cannot affect the satisfiability of PC ∧ extra.
+func (ex *Exec) slice(extra *Term) ([]*rendered, map[string]bool) {
+	var out []*rendered
+	inSlice := map[string]bool{}
+	if extra != nil {
+		r := renderCached(ex.rcache, extra)
+		out = append(out, r)
+		for n := range r.vars {
+			inSlice[n] = true
+		}
+	} else {
+		for _, c := range ex.pc {
+			out = append(out, renderCached(ex.rcache, c))
+		}
+		return out, nil
+	}
+	rs := make([]*rendered, len(ex.pc))
+	used := make([]bool, len(ex.pc))
+	for i, c := range ex.pc {
+		rs[i] = renderCached(ex.rcache, c)
+	}
+	for changed := true; changed; {
+		changed = false
+		for i, r := range rs {
+			if used[i] {
+				continue
+			}
+			hit := false
+			for n := range r.vars {
+				if inSlice[n] {
+					hit = true
+					break
+				}
+			}
+			if hit {
+				used[i] = true
+				changed = true
+				for n := range r.vars {
+					inSlice[n] = true
+				}
+			}
+		}
+	}
+	for i, r := range rs {
+		if used[i] {
+			out = append(out, r)
+		}
+	}
+	return out, inSlice
+}
+
+// solve decides PC ∧ extra on the relevant slice of the path condition. vars are the variables whose values
+// are wanted on sat; values of variables outside the slice are taken from the current model.
 func (ex *Exec) solve(extra *Term, vars []*Term) (Verdict, Model) {
+	ex.ensureModelFor(extra)
+	conj, inSlice := ex.slice(extra)
+	want := vars
+	if inSlice != nil {
+		want = nil
+		for _, v := range vars {
+			if inSlice[v.Name] {
+				want = append(want, v)
+			}
+		}
+	}
+	var v Verdict
+	var m Model
+	hard := ex.arithInt
+	for _, c := range conj {
+		if c.hard && !c.hasFP {
+			hard = true
+		}
+	}
+	for _, c := range conj {
+		if c.hasFP {
+			hard = false
+		}
+	}
+	if hard {
+		v, m = ex.raceSolve(conj, want)
+	} else {
+		v, m = ex.solver.SolveConj(conj, want)
+	}
+	if v == Sat && vars != nil {
+		full := Model{}
+		for k, val := range ex.model {
+			full[k] = val
+		}
+		for k, val := range m {
+			full[k] = val
+		}
+		m = full
+	}
+	return v, m
+}
+
+// ensureModelFor: slicing relies on ex.model satisfying the whole path condition.
+func (ex *Exec) ensureModelFor(extra *Term) {
+	if extra != nil && ex.modelStale {
+		ex.ensureModel()
+	}
+}
+
+// raceSolve: integer-arithmetic mode. The wrapped-integer rendering (z3 5.1) is raced against bit-vector
+// back ends (cvc5 --solve-bv-as-int=sum, z3).
+func (ex *Exec) raceSolve(conj []*rendered, vars []*Term) (Verdict, Model) {
 	qlog := os.Getenv("VERIF_QLOG") != ""
-	if !ex.arithInt {
-		return ex.solver.Solve(extra, vars)
-	}
-	// integer-arithmetic mode: race the wrapped-integer rendering (z3 5.1) against bit-vector back ends
-	pc := ex.pc
-	if extra != nil {
-		pc = append(append([]*Term{}, ex.pc...), extra)
-	}
-	ex.solver.Push()
-	defer ex.solver.Pop()
-	if extra != nil {
-		ex.solver.Assert(extra)
-	}
-	for _, v := range vars {
-		ex.solver.declareVars(map[string]*Term{v.Name: v})
-	}
-	bv := ex.solver.bvScript(vars)
+	bv := bvScriptOf(conj, vars)
 	tl := fmt.Sprintf("%d", ex.solver.hardTimeout)
+	var terms []*Term
+	for _, c := range conj {
+		terms = append(terms, c.t)
+	}
 	var rs []racer
-	if script, ok := RenderIntScript(pc, vars); ok {
+	if script, ok := RenderIntScript(terms, vars); ok {
 		rs = append(rs, racer{name: "z3-new/int", argv: []string{"z3-new", "-in", "-t:" + tl}, script: script, strip: "_i"})
 	}
 	rs = append(rs,
@@ -1543,7 +1638,7 @@ func (ex *Exec) solve(extra *Term, vars []*Term) (Verdict, Model) {
 	t0 := time.Now()
 	v, m, who := ex.solver.race(rs, len(vars) > 0, time.Duration(ex.solver.hardTimeout+2000)*time.Millisecond)
 	if qlog {
-		fmt.Fprintf(os.Stderr, "QLOG race %s by %s %.2fs\n", v, who, time.Since(t0).Seconds())
+		fmt.Fprintf(os.Stderr, "QLOG race %s by %s %.2fs conj=%d\n", v, who, time.Since(t0).Seconds(), len(conj))
 	}
 	if v != Unknown {
 		ex.intSolved++
